@@ -76,6 +76,11 @@ def check(res):
         cmds = [m.d["cmd"] for m in c.of("msg")]
         if cmds and cmds[0] == "wait_for":  # a still-tripped suspender legitimately delays the start (C31)
             cmds = cmds[1:]
+        if any(e.kind == "sus_request" for e in c.events):
+            # a flapping signal of the main call's schedule went bad again during the follow-up call: it is suspended
+            # like any other plan (the engine's own suspension messages are not the plan's)
+            res.notes["followup_suspended_by_late_flap"] = res.notes.get("followup_suspended_by_late_flap", 0) + 1
+            cmds = [x for x in cmds if x not in ("_start_suspender", "_resume_from_suspender", "wait_for", "rewindable")]
         if tag == "followup-null" and cmds != ["null"]:
             out.append(V("followup-trace-differs", f"{tag}: messages {cmds}", tag=tag))
         if tag == "followup-run":
